@@ -45,6 +45,32 @@ Definition alloc_ns (st : nsst) (n : tname) : res (string * nsst) :=
   | None => Err EKey
   end.
 
+(* ---- the structures that are written (xmi.py serialize, after bab0472) ----
+   feature_structures = list(cas._find_all_fs()); every sofa's sofaArray that is not among them (by identity) is appended,
+   getting an id from the generator when it has none. *)
+Fixpoint add_sofa_arrays (vs : list cview) (h : heap) (next : Z) (all : list (xid * oid)) : res (heap * Z * list (xid * oid)) :=
+  match vs with
+  | [] => Ok (h, next, all)
+  | v :: r =>
+    match s_arr (v_sofa v) with
+    | None => add_sofa_arrays r h next all
+    | Some o =>
+      if memN o (map snd all) then add_sofa_arrays r h next all else
+      match hget h o with
+      | None => Err EAttribute
+      | Some f =>
+        match o_id f with
+        | Some i => add_sofa_arrays r h next (all ++ [(i, o)])
+        | None => add_sofa_arrays r (hset h o (set_id f next)) (next + 1) (all ++ [(next, o)])
+        end
+      end
+    end
+  end.
+Definition written (s : schema) (c : cas) : res (cas * list (xid * oid)) :=
+  do w <- find_all_fs false s c ;;
+  do r <- add_sofa_arrays (c_views c) (w_heap w) (w_next w) (w_all w) ;;
+  Ok (mkCas (c_views c) (fst (fst r)) (snd (fst r)), snd r).
+
 (* ---- values ---- *)
 Definition sofa_of_view (c : cas) (n : string) : option sofa :=
   option_map v_sofa (find (fun v => String.eqb (s_name (v_sofa v)) n) (c_views c)).
@@ -244,11 +270,13 @@ Fixpoint enc_all (s : schema) (c : cas) (st : nsst) (l : list (xid * oid)) : res
 Definition null_elem : xelem := mkX NS_CAS "NULL" [(A_ID, "0")] [].
 Definition opt_attr (n : string) (o : option string) : list (string * string) :=
   match o with Some v => [(n, v)] | None => [] end.
-(* _serialize_sofa: sofaURI and sofaArray are not written *)
-Definition enc_sofa (so : sofa) : xelem :=
-  mkX NS_CAS "Sofa"
+(* _serialize_sofa (after bab0472: sofaURI and sofaArray are written too) *)
+Definition enc_sofa (h : heap) (so : sofa) : res xelem :=
+  do arr <- match s_arr so with None => Ok None | Some o => do a <- id_str h o ;; Ok (Some a) end ;;
+  Ok (mkX NS_CAS "Sofa"
       ([(A_ID, z2s (s_xid so)); ("sofaNum", z2s (s_num so)); ("sofaID", s_name so)]
-         ++ opt_attr "mimeType" (s_mime so) ++ opt_attr "sofaString" (option_map utf8_encode (s_text so)))%list [].
+         ++ opt_attr "mimeType" (s_mime so) ++ opt_attr "sofaString" (option_map utf8_encode (s_text so))
+         ++ opt_attr "sofaURI" (s_uri so) ++ opt_attr "sofaArray" arr)%list []).
 (* _serialize_view: members sorted numerically *)
 Definition member_id (h : heap) (o : oid) : res Z :=
   match hget h o with
@@ -259,13 +287,14 @@ Definition enc_view (h : heap) (v : cview) : res xelem :=
   do ms <- mapM (member_id h) (v_members v) ;;
   Ok (mkX NS_CAS "View" [("sofa", z2s (s_xid (v_sofa v))); ("members", join (map z2s (zsort ms)))] []).
 
-(* CasXmiSerializer.serialize: cas:NULL, the structures found by _find_all_fs sorted by id, the sofas, the views *)
+(* CasXmiSerializer.serialize: cas:NULL, the structures to write sorted by id, the sofas, the views *)
 Definition save_xmi (s : schema) (c : cas) : res (xdoc * cas) :=
-  do w <- find_all_fs false s c ;;
-  let c' := cas_after c w in
-  do fss <- enc_all s c' ns_init (sort_ids (w_all w)) ;;
+  do ca <- written s c ;;
+  let c' := fst ca in
+  do fss <- enc_all s c' ns_init (sort_ids (snd ca)) ;;
+  do sofas <- mapM (fun v => enc_sofa (c_heap c') (v_sofa v)) (c_views c') ;;
   do vs <- mapM (enc_view (c_heap c')) (c_views c') ;;
-  Ok ((null_elem :: fss ++ map (fun v => enc_sofa (v_sofa v)) (c_views c') ++ vs)%list, c').
+  Ok ((null_elem :: fss ++ sofas ++ vs)%list, c').
 
 End Flt.
 
@@ -327,10 +356,10 @@ Definition canon_of (s : schema) (c : cas) (all : list (xid * oid)) : res ccas :
   do fss <- mapM (canon_fs s c) all ;;
   Ok (mkCcas (sort_by cs_id sofas) (sort_by fst fss)).
 Definition canon_xmi (s : schema) (c : cas) : res ccas :=
-  do w <- find_all_fs false s c ;; canon_of s (cas_after c w) (sort_ids (w_all w)).
+  do ca <- written s c ;; canon_of s (fst ca) (sort_ids (snd ca)).
 
 (* ---- boolean well-formedness premises of the codec theorems (DESIGN.md section 4.4, wf_casb for XMI) ----
-   `all` is the list (id, object) of the structures that are written (w_all of the traversal), `c` the CAS after it.
+   `all` is the list (id, object) of the structures that are written and `c` the CAS after the traversal (`written`).
    The parts that speak about `all` as a set (ids distinct and apart from sofa ids, every reference / element / member
    is in `all`) are what Reach's find_all_each_once / find_all_closed establish; they are kept boolean here so that the
    codec theorems do not depend on the shape of those lemmas and the harness can count them. *)
@@ -437,7 +466,7 @@ Definition fs_okb (s : schema) (c : cas) (ids : list Z) (io : xid * oid) : bool 
 Definition text_okb (t : text) : bool := opt_eqb (list_eqb N.eqb) (utf8_decode (utf8_encode t)) (Some t).
 Definition view_okb (c : cas) (ids : list Z) (v : cview) : bool :=
   let so := v_sofa v in
-  match s_uri so, s_arr so with None, None => true | _, _ => false end      (* text sofas *)
+  match s_arr so with Some o => ref_okb (c_heap c) ids (VRef o) | None => true end
   && match s_text so with Some t => text_okb t | None => true end
   && forallb (fun o => ref_okb (c_heap c) ids (VRef o)) (v_members v).
 Definition wf_xmib (s : schema) (c : cas) (all : list (xid * oid)) : bool :=
